@@ -164,8 +164,10 @@ def run(module, cfg=None, workdir=None, workers=16, timeout=1500, env=None,
     if fatal and not (res.violated and allow_violation and
                       fatal == 'TLC failed'):
         if not (res.violated and allow_violation):
-            tail = '\n'.join(l for l in out.splitlines()
-                             if not l.startswith('"'))[-3000:]
+            lines = [l for l in out.splitlines() if not l.startswith('"')]
+            first = next((i for i, l in enumerate(lines) if l.startswith('Error:')
+                          or 'Exception' in l), max(0, len(lines) - 30))
+            tail = '\n'.join(l[:300] for l in lines[first:first + 25])
             raise MachineryError('%s: %s\n%s' % (fatal, res.cmd, tail))
     if res.violated and not allow_violation:
         tail = '\n'.join(l for l in out.splitlines()
